@@ -153,7 +153,7 @@ fn loop_program(c: &LoopCase) -> Program {
     for i in 0..c.scopes {
         node = Node::Scope { id: 20 + i, body: vec![node], hooks: None };
     }
-    Program { root: vec![node], log_rules: None, pre_ops: vec![], resume: false }
+    Program { root: vec![node], log_rules: None, pre_ops: vec![], resume: false, optimum: 0.0 }
 }
 
 impl World for BoundedLoops {
